@@ -34,9 +34,27 @@ def nonceCode (tok : String) : Nat :=
   match tok with
   | "g" => 0 | "g2" => 1 | "b" => 2 | "b2" => 3 | _ => 4
 
+/-- nonce code of the start-up handshake with a pinned bootstrap identity (the real solver's nonce: valid; equal to
+    `g` only at difficulty 0, where the solver returns 0) -/
+def bootNonce (toks : List String) : Nat := if hdiffOf toks == 0 then 0 else 99
+
 def envOf (toks : List String) : Env :=
   let hd := hdiffOf toks
-  { cooldown := kvInt toks "cd" 5, powValid := fun _ _ n => hd == 0 || decide (n < 2) }
+  { cooldown := kvInt toks "cd" 5, powValid := fun _ _ n => hd == 0 || decide (n < 2) || n == 99 }
+
+/-- `bs=<peer>:<pub|->,...` : pinned bootstrap identities, in configuration order -/
+def pinnedOf (toks : List String) : List (String × Nat) :=
+  match toks.find? (fun t => t.startsWith "bs=") with
+  | none => []
+  | some t =>
+    ((t.drop 3).toString.splitOn ",").filterMap fun ent =>
+      match ent.splitOn ":" with
+      | [p, k] => k.toNat?.map fun pub => (p, pub)
+      | _ => none
+
+/-- `attempt_bootstrap_handshakes` in the constructor: one `perform_handshake` per pinned identity -/
+def bootState (toks : List String) : State :=
+  (pinnedOf toks).foldl (fun m (p, pub) => (perform (envOf toks) m p pub (bootNonce toks)).1) (init vclockStart)
 
 structure St where
   env : Env
@@ -50,7 +68,13 @@ def keyTok (k : Option Nat) : String := match k with | some v => toString v | no
 
 def step (st : St) (tok : List String) (_line : String) (impl : Option String) : St × String × String :=
   match tok with
-  | "cfg" :: rest => ({ initSt with env := envOf rest }, cfgLine rest, "ok")
+  | "cfg" :: rest =>
+    let m0 := bootState rest
+    -- what the start-up handshakes left behind is the baseline the observer compares rejections with
+    let seen0 : String → C20Spec.Seen := fun q =>
+      let ps := m0.peers q
+      { key := keyTok ps.sess, sessionKey := keyTok ps.smKey, rep := ps.rep }
+    ({ initSt with env := envOf rest, m := m0, seen := seen0 }, cfgLine rest, "ok")
   | ["adv", n] =>
     match n.toNat? with
     | some d => ({ st with m := (Handshake.step st.env st.m (.adv d)).1 }, "ok", "ok")
